@@ -22,7 +22,7 @@ import XjsModel.Props.C15
   Known findings in the oracle: nosemi-hazard (D6), trim-in-literal (D5) (restricted productions: repaired, f7f7cd3).
 -/
 namespace Xjs.C01
-open Xjs Xjs.RS
+open Xjs Xjs.RA
 
 /-- (1)+(4): an accepted program's tree carries exactly the source tokens and compiles in every configuration -/
 theorem accepted_source_is_faithfully_represented (cfg : PCfg) (toks : List Token) (r : ParseResult)
@@ -43,16 +43,16 @@ theorem compact_output_depends_on_tree_only (prog : StmtList) (sm : Bool) :
   | true => exact h2.trans h1.symm
 
 /-- (3): for expressions without function / object literals, the tree of the output tokens is the printed tree -/
-theorem operator_core_round_trip (cfg : PCfg) (hc : BaseCfg cfg) (s : SE) (hw : s.wf = true)
+theorem operator_core_round_trip (cfg : PCfg) (hc : BaseCfg cfg) (s : SE) (hw : s.wf = true) (hterm : s.term = true)
     (st : PS) (rest : List Token) (hr : rest ≠ []) (ht : st.toks = s.toks ++ rest) (hstop : stops cfg LOWEST rest) :
     parseExpressionI cfg [] LOWEST st = some (s.tree, nextK (s.toks.length - 1) st) :=
-  Xjs.C03.printed_tokens_parse_back cfg hc s hw st rest hr ht hstop
+  Xjs.C03.printed_tokens_parse_back cfg hc s hw hterm st rest hr ht hstop
 
 /-- (3) for whole programs: the tree of the output tokens is the printed tree, and no error is reported -/
-theorem program_round_trip (cfg : PCfg) (hc : BaseCfg cfg) (prog : SSList) (hw : prog.wf = true)
+theorem program_round_trip (cfg : PCfg) (hc : BaseCfg cfg) (prog : SSList) (hw : prog.wf = true) (hterm : prog.term = true)
     (eofTok : Token) (he : eofTok.type = .eof) :
     ∃ r, parseProgram cfg (prog.toks ++ [eofTok]) = some r ∧ r.prog = prog.tree ∧ r.errors = [] ∧ r.hasErr = false :=
-  Xjs.C03.printed_program_parses_back cfg hc prog hw eofTok he
+  Xjs.C03.printed_program_parses_back cfg hc prog hw hterm eofTok he
 
 end Xjs.C01
 
